@@ -484,6 +484,11 @@ func runObf(o opts, out *Output) {
 				}
 			}
 			cfg.EncryptAttributes = listed
+			if len(listed) > 0 && r.Bool() {
+				// the usual way to configure list mode: encrypt_attributes given, encrypt_all left at its default (true);
+				// a non-empty list takes precedence
+				cfg.EncryptAll = true
+			}
 			if len(listed) == 0 && r.Bool() {
 				// EncryptAll=false with an empty list: list mode with nothing listed
 			} else if len(listed) == 0 {
